@@ -175,22 +175,32 @@ def bindsStr (bs : List (Option Extra)) : String :=
 def zipIdx {α β} (xs : List α) (ys : List β) : List (Nat × α × β) :=
   (List.range xs.length).zip (xs.zip ys)
 
+def typeRec (d : DCtx) (rf : RFile) (slot : Slot) (te : TypeExpr) : String :=
+  match lookupSlot slot rf.types with
+  | some ns => nodesStr d te ns
+  | none => "MISSING"
+
+def bindRec (rf : RFile) (slot : Slot) : String :=
+  match lookupSlot slot rf.binds with
+  | some bs => bindsStr bs
+  | none => "-"
+
 def fileRecords (d : DCtx) (f : File) (rf : RFile) : List String :=
   let n := rf.n2c.map fun (k, c) => s!"N.{hx k}.{c.toNat}"
-  let t := (f.typedefs.zip rf.typedefs).map fun (td, r) => s!"T.{hx r.tdAlias}.{nodesStr d td.type r.nodes}"
-  let c := (f.constants.zip rf.constants).map fun (cd, r) =>
-    s!"C.{hx r.name}.{nodesStr d cd.type r.nodes}.{bindsStr r.binds}"
-  let s := (f.structLikes.zip rf.structLikes).flatMap fun (sd, r) =>
-    (zipIdx sd.fields r.fields).map fun (k, fd, rfd) =>
-      s!"S.{hx r.name}.{k}.{nodesStr d fd.type rfd.nodes}.{bindsStr rfd.binds}"
-  let v := (f.services.zip rf.services).flatMap fun (sd, r) =>
-    s!"V.{hx r.name}.{refStr r.ref}" ::
-    (zipIdx sd.functions r.functions).flatMap fun (k, fd, rfn) =>
+  let t := f.typedefs.map fun td => s!"T.{hx td.alias}.{typeRec d rf (.typedef td.alias) td.type}"
+  let c := f.constants.map fun cd =>
+    s!"C.{hx cd.name}.{typeRec d rf (.const cd.name) cd.type}.{bindRec rf (.const cd.name)}"
+  let s := f.structLikes.flatMap fun sd =>
+    (zipIdx sd.fields sd.fields).map fun (k, fd, _) =>
+      s!"S.{hx sd.name}.{k}.{typeRec d rf (.field sd.name k) fd.type}.{bindRec rf (.field sd.name k)}"
+  let v := f.services.flatMap fun sd =>
+    s!"V.{hx sd.name}.{refStr ((lookupB sd.name rf.svcRefs).getD none)}" ::
+    (zipIdx sd.functions sd.functions).flatMap fun (k, fd, _) =>
       (match fd.ret with
-       | some te => [s!"R.{hx r.name}.{k}.{nodesStr d te rfn.ret}"]
+       | some te => [s!"R.{hx sd.name}.{k}.{typeRec d rf (.ret sd.name k) te}"]
        | none => []) ++
-      ((zipIdx fd.args rfn.args).map fun (a, ad, ns) => s!"A.{hx r.name}.{k}.{a}.{nodesStr d ad.type ns}") ++
-      ((zipIdx fd.throws rfn.throws).map fun (a, ad, ns) => s!"X.{hx r.name}.{k}.{a}.{nodesStr d ad.type ns}")
+      ((zipIdx fd.args fd.args).map fun (a, ad, _) => s!"A.{hx sd.name}.{k}.{a}.{typeRec d rf (.arg sd.name k a) ad.type}") ++
+      ((zipIdx fd.throws fd.throws).map fun (a, ad, _) => s!"X.{hx sd.name}.{k}.{a}.{typeRec d rf (.throw sd.name k a) ad.type}")
   sortStrs (n ++ t ++ c ++ s ++ v)
 
 def usedStr (u : List Bool) : String := String.ofList (u.map fun b => if b then '1' else '0')
